@@ -154,6 +154,8 @@ func startEntryPoints(cfg optsCfg, probes *app.Probes, upstream, remote string) 
 				config.Mechanism{ID: "www2", Type: "www_authenticate", Config: config.MechanismConfig{"realm": e2eRealm2}},
 				config.Mechanism{ID: "wwwdef", Type: "www_authenticate"},
 			)
+			// redirect handlers whose location depends on the request (e2e_concurrent_test.go)
+			c.Prototypes.ErrorHandlers = append(c.Prototypes.ErrorHandlers, concHandlers()...)
 			// real authorizers whose expressions are evaluated on the data of the request (e2e_real_test.go)
 			c.Prototypes.Authorizers = append(c.Prototypes.Authorizers, realAuthorizers(remote)...)
 			sc := &c.Serve.Decision
@@ -174,7 +176,7 @@ func startEntryPoints(cfg optsCfg, probes *app.Probes, upstream, remote string) 
 		ep := &entryPoint{name: svc, a: a}
 		eps = append(eps, ep)
 		var rules []rconfig.Rule
-		for _, set := range [][]e2eRule{e2eRules, realRules} {
+		for _, set := range [][]e2eRule{e2eRules, realRules, concRules} {
 			for _, rl := range set {
 				exec := rl.exec
 				if exec == nil {
@@ -333,6 +335,8 @@ func c12E2E(r *core.Run) {
 		// failures produced by real mechanisms evaluating expressions on the data of the request
 		seq = realFailures(r, ci, cfg, eps, probes, up, st, seq)
 		redirectOverride(r, ci, cfg, eps, probes, up.HostPort(), st)
+		// failing requests in flight at the same time, answered by handlers rendering request dependent values
+		concurrentFailures(r, ci, cfg, eps, probes, up, st)
 		for _, ep := range eps {
 			ep.stop()
 		}
